@@ -100,6 +100,7 @@ class SeqTh:
         ax([s, n], Implies(n == Len(s), Drop(s, n) == Emp), Drop(s, n))
         ax([s], Take(s, 0) == Emp, Take(s, 0))
         ax([s, n, x], Implies(And(0 <= n, n <= Len(s), Has(Take(s, n), x)), Has(s, x)), Has(Take(s, n), x))  # -- lean: has_take
+        ax([s, n, j], Implies(And(0 <= j, j < n, n <= Len(s)), Has(Take(s, n), At(s, j))), MultiPattern(Take(s, n), At(s, j)))  # -- lean: has_take_at
         ax([s, n, x], Implies(And(0 <= n, n <= Len(s), Has(Drop(s, n), x)), Has(s, x)), Has(Drop(s, n), x))  # -- lean: has_drop
         ax([s, n], Implies(And(0 <= n, n <= Len(s)), App(Take(s, n), Drop(s, n)) == s), App(Take(s, n), Drop(s, n)))  # -- lean: take_append_drop
         ax([s, n], Implies(And(0 <= n, n < Len(s)), App(Take(s, n), One(At(s, n))) == Take(s, n + 1)), App(Take(s, n), One(At(s, n))))   # -- lean: take_succ
